@@ -1,2 +1,3 @@
 import Model.Encoder
 import Model.Driver
+import Model.Dispatch
